@@ -86,8 +86,12 @@ func (cs ChainStorage) FindConversionChain(crdName string, rule Rule) []Rule {
 					continue
 				}
 
-				//nolint
-				newPath := append(chain.PathsCache[ruleToCheck], nextRule)
+				// Copy the cached path: appending in place would let paths that extend
+				// the same cached path share (and overwrite) their last element.
+				cachedPath := chain.PathsCache[ruleToCheck]
+				newPath := make([]Rule, 0, len(cachedPath)+1)
+				newPath = append(newPath, cachedPath...)
+				newPath = append(newPath, nextRule)
 
 				// This path is already discovered.
 				p := chain.SearchPathForRule(newRule)
